@@ -44,13 +44,14 @@ PROPS = {
         "struct": True,
         "tests": ["TestC06"],
         "design_ref": "DESIGN.md §3.6",
-        "level_text": "Theorems C06_builder_ttls_minimal_nonzero (WithTTL(ctx,ttl,true) repeated keeps the smallest non-zero TTL, negative ones included), C06_cell_changes_only_in_builder / C06_other_gets_do_not_touch_the_cell (the TTL cell of a Get changes only when its builder returns, by exactly the builder's updates; the stale re-store and all other steps leave it alone; the background build starts with the caller's cell, key and SkipRead flag), C06_store_ttls (every backend write is the final store with the cell's TTL, 0 = backend default, or the re-store of the stale value with UpdateTTL), C06_no_cell_nothing_to_update, C06_skip_still_stores; C06_detached_context (theories/Ctx.v models a context as a chain of value / cancel / deadline layers with the library's detachedContext as a layer of its own: for EVERY caller chain, every set of cancel functions already called, every instant and any further value layers, the background builder's context has Err()=nil, Done()=nil, no deadline, and resolves every key as the caller's context does), C06_cancellation_is_permanent, C06_context_observation — Coq, no axioms. Correspondence: the wrapping backend records TTL(ctx) of every Write; builders record Err (entry and exit), Done, Deadline and Value of their context on every Get path, with callers that cancel before the call, in the middle of the build or after return, or carry a 1h / 5s deadline, and Ctx.v predicts each of these observations from the caller's chain, the cancellations so far and the fake clock; predicates c06_get_ok and ctxobs_prop on every trace. Tie to the source: C06_source_with_ttl / C06_source_ttl — the bodies of WithTTL and TTL (context.go), re-translated from /repo on every run by harness/cmd/gofunc into the IR of theories/GoIR.v, compute upd_cell / cell_ttl for every cell content, TTL and updateExisting flag.",
+        "level_text": "Theorems C06_builder_ttls_minimal_nonzero (WithTTL(ctx,ttl,true) repeated keeps the smallest non-zero TTL, negative ones included), C06_cell_changes_only_in_builder / C06_other_gets_do_not_touch_the_cell (the TTL cell of a Get changes only when its builder returns, by exactly the builder's updates; the stale re-store and all other steps leave it alone; the background build starts with the caller's cell, key and SkipRead flag), C06_store_ttls (every backend write is the final store with the cell's TTL, 0 = backend default, or the re-store of the stale value with UpdateTTL), C06_no_cell_nothing_to_update, C06_skip_still_stores; C06_detached_context (theories/Ctx.v models a context as a chain of value / cancel / deadline layers with the library's detachedContext as a layer of its own: for EVERY caller chain, every set of cancel functions already called, every instant and any further value layers, the background builder's context has Err()=nil, Done()=nil, no deadline, and resolves every key as the caller's context does), C06_cancellation_is_permanent, C06_context_observation — Coq, no axioms. Correspondence: the wrapping backend records TTL(ctx) of every Write; builders record Err (entry and exit), Done, Deadline and Value of their context on every Get path, with callers that cancel before the call, in the middle of the build or after return, or carry a 1h / 5s deadline, and Ctx.v predicts each of these observations from the caller's chain, the cancellations so far and the fake clock; predicates c06_get_ok and ctxobs_prop on every trace. Tie to the source: C06_source_with_ttl / C06_source_ttl — the bodies of WithTTL and TTL (context.go), re-translated from /repo on every run by harness/cmd/gofunc into the IR of theories/GoIR.v, compute upd_cell / cell_ttl for every cell content, TTL and updateExisting flag. C06_source_refresh_and_store_contexts / C06_source_detached_context / C06_source_ctx_sync: the re-translated bodies of refreshStale (a TTL cell of its own holding UpdateTTL), doBuild (stores under the build context), ctxSync (detachedContext iff background) and the four methods of detachedContext (= the layer LDetach of Ctx.v).",
         "level_note": "Trusted: as C01; interpretations O3 (no TTL cell in the caller's context: builder updates have nothing to update) and O6 (a SkipRead Get that finds the key locked accepts the owner's result). The standard library's WithValue / WithCancel / WithDeadline are modelled by their documented contract (Ctx.v), the library's detachedContext by its four methods.",
     },
     "C05": {
+        "struct": True,
         "tests": ["TestC05"],
         "design_ref": "DESIGN.md §3.5",
-        "level_text": 'Theorems C05_single_flight (with SyncRead every builder invocation for k is preceded by a read of k under the key lock, by the invoking Get or the Get that spawned the background build, that did not hit, with no build result for k stored in between), C05_no_rebuild_while_fresh (hence against a backend that answers with a hit once a build result was stored, no second builder invocation for k: a burst costs one successful build), C05_failure_gate (a Get that checks the failure cache while the failure is live returns the cached error and is never inside the builder afterwards), C05_failures_not_cached (FailedUpdateTTL=-1: the failure cache stays empty) — Coq, no axioms, every number of Gets, keys, schedules, oracle answers. Correspondence: bursts under SyncRead and failure windows at exact fake-clock offsets (0.5/0.94/1.06/2 x FailedUpdateTTL), predicates C05_single_obs / C05_fail_obs on every implementation trace.',
+        "level_text": 'Theorems C05_single_flight (with SyncRead every builder invocation for k is preceded by a read of k under the key lock, by the invoking Get or the Get that spawned the background build, that did not hit, with no build result for k stored in between), C05_no_rebuild_while_fresh (hence against a backend that answers with a hit once a build result was stored, no second builder invocation for k: a burst costs one successful build), C05_failure_gate (a Get that checks the failure cache while the failure is live returns the cached error and is never inside the builder afterwards), C05_failures_not_cached (FailedUpdateTTL=-1: the failure cache stays empty) — Coq, no axioms, every number of Gets, keys, schedules, oracle answers. Correspondence: bursts under SyncRead and failure windows at exact fake-clock offsets (0.5/0.94/1.06/2 x FailedUpdateTTL), predicates C05_single_obs / C05_fail_obs on every implementation trace. Tie to the source: C05_source_failure_cache — the re-translated bodies of recentlyFailed and doBuild consult / fill the failure cache iff FailedUpdateTTL > -1, the entry living the failure cache\'s own TimeToLive.',
         "level_note": "Trusted: as C01; 'while the result stays fresh' is the hypothesis [coherent] on the backend oracle (the real backends satisfy it by C07/C08); the expiry instant the failure cache stores is an oracle input validated against the C10 bound; that the builder is invoked again once the failure expired is checked by the correspondence run (the model has the step, no liveness theorem).",
     },
     "C04": {
@@ -60,9 +61,10 @@ PROPS = {
         "level_note": "Trusted: as C01; 'returns once its builders returned' is bounded own-steps + enabledness in the model, real-time scheduling is outside it.",
     },
     "C03": {
+        "struct": True,
         "tests": ["TestC03"],
         "design_ref": "DESIGN.md §3.3",
-        "level_text": 'Theorem C03_table (Coq, no axioms, by computation over 20480 shapes with values, instants and durations symbolic): running the interleaving model for a lone Get yields exactly the README decision table, for both answers of the staleness test, both APIs, all option combinations, with/without logger and stats. The implementation is compared with the same table on the complete product (504 cells quick, 1008 thorough) and with the model step by step.',
+        "level_text": 'Theorem C03_table (Coq, no axioms, by computation over 20480 shapes with values, instants and durations symbolic): running the interleaving model for a lone Get yields exactly the README decision table, for both answers of the staleness test, both APIs, all option combinations, with/without logger and stats. The implementation is compared with the same table on the complete product (504 cells quick, 1008 thorough) and with the model step by step. Tie to the source: C03_source_ctx_sync and C03_source_staleness_test — the bodies of ctxSync, freshEnough and valueFromError, re-translated from /repo on every run (harness/cmd/gofunc, theories/GoIR.v), are the model\'s sync/background decision and staleness test.',
         "level_note": 'Trusted: as C01; the table is a transcription of README bullets 2-7 (DESIGN Appendix B).',
     },
     "C02": {
@@ -93,7 +95,7 @@ PROPS = {
         "struct": True,
         "tests": ["TestC18"],
         "design_ref": "DESIGN.md §3.18",
-        "level_text": "Theorems C18_backend_totals / C18_backend_step (every backend operation's metric events match its accounting, any hash/config/sequence) and C18_failover_builds_counted / C18_failover_totals (at quiescence cache_build = builder invocations, cache_failed = failed builds, cache_refreshed = stale re-stores, under every interleaving) (Coq, no axioms). Correspondence: counting StatsTracker on backend sequences and on steered Failover workloads. Tie to the source: C18_source_read_metrics — both PrepareRead bodies, re-translated from /repo on every run, emit exactly the one metric event the model's b_read emits. Also tied to the re-translated source: C18_source_notify (NotifyWritten / NotifyDeleted / NotifyExpiredAll / NotifyDeletedAll emit cache_write 1, cache_delete 1, cache_expired n, cache_delete n once, only with a tracker) and C18_source_write_delete_notify_once.",
+        "level_text": "Theorems C18_backend_totals / C18_backend_step (every backend operation's metric events match its accounting, any hash/config/sequence) and C18_failover_builds_counted / C18_failover_totals (at quiescence cache_build = builder invocations, cache_failed = failed builds, cache_refreshed = stale re-stores, under every interleaving) (Coq, no axioms). Correspondence: counting StatsTracker on backend sequences and on steered Failover workloads. Tie to the source: C18_source_read_metrics — both PrepareRead bodies, re-translated from /repo on every run, emit exactly the one metric event the model's b_read emits. Also tied to the re-translated source: C18_source_notify (NotifyWritten / NotifyDeleted / NotifyExpiredAll / NotifyDeletedAll emit cache_write 1, cache_delete 1, cache_expired n, cache_delete n once, only with a tracker) and C18_source_write_delete_notify_once. C18_source_failover_metrics: the re-translated bodies of doBuild (cache_build once, deferred; cache_failed once per failure) and refreshStale (cache_refreshed once).",
         "level_note": 'Trusted: as C07 and C01; metric names/labels as emitted through the StatsTracker interface.',
     },
     "C12": {
